@@ -277,7 +277,8 @@ fn gen_valid(rng: &mut Rng, big_arrays: bool) -> GenLib {
                     (sh.layer, q)
                 }
             };
-            let string = format!("{}{}_{}", rng.pick(&["Net", "VDD", "clk", "n", "OUT"]), i, k);
+            // mostly identifiers; a third end in letters outside ASCII (I_10µA, Entrée, RΩ): the name of the net is the label's text in lower case
+            let string = format!("{}{}_{}{}", rng.pick(&["Net", "VDD", "clk", "n", "OUT"]), i, k, rng.pick(&["", "", "", "", "µA", "É", "Ω", "_шина", "é1"]));
             s.elems.push(GdsTextElem { string: string.clone(), layer, texttype: rng.range(0, 5) as i16, xy: gpt(p), ..Default::default() }.into());
             texts.push((string, layer, p));
         }
@@ -291,7 +292,7 @@ fn gen_valid(rng: &mut Rng, big_arrays: bool) -> GenLib {
                 if rng.chance(2, 3) {
                     s.elems.push(GdsStructRef { name: target, xy: gpt(loc), strans: strans_of(reflect, quarter, rng, 5), ..Default::default() }.into());
                 } else {
-                    let (cols, rows) = if big_arrays && rng.chance(1, 3) { (rng.range(150, 200), rng.range(170, 200)) } else { (rng.range(1, 6), rng.range(1, 6)) };
+                    let (cols, rows) = if big_arrays && rng.chance(1, 3) { if rng.chance(1, 3) { (rng.range(256, 300), rng.range(256, 262)) } else { (rng.range(150, 200), rng.range(170, 200)) } } else { (rng.range(1, 6), rng.range(1, 6)) };
                     let (cp, rp) = (rng.range(1, 500), rng.range(1, 500));
                     // lattice vectors: axis-aligned, rotated with the array, or arbitrary integer (skewed)
                     let (cv, rv): (P, P) = match rng.below(4) {
